@@ -237,7 +237,7 @@ End Over.
 
 (* the derived parents of the correspondence run (all but mapValues) satisfy the hypotheses *)
 Lemma derived_parent_ok pv u qq pre : derived_parent pv u qq = Some pre -> In pv [0; 1; 2; 4; 5; 6] ->
-  (pv = 4 -> Forall keyed_batch qq) ->
+  (pv = 4 -> keyed_source qq) ->
   pre <> [] /\ well_formed pre /\ quiet pre /\ live pre (length pre - 1).
 Proof.
   intros H Hpv Hk. cbn [In] in Hpv.
@@ -256,7 +256,7 @@ Qed.
    consumers and a consumer on the parent: no tick raises, and the window holds exactly the parent's most recent w
    RDDs as the parent emitted them; at an emitting interval its RDD is their union *)
 Lemma window_over_derived pv u qq pre count w s k ts :
-  derived_parent pv u qq = Some pre -> In pv [0; 1; 2; 4; 5; 6] -> (pv = 4 -> Forall keyed_batch qq) ->
+  derived_parent pv u qq = Some pre -> In pv [0; 1; 2; 4; 5; 6] -> (pv = 4 -> keyed_source qq) ->
   0 < s -> increasing 0 ts ->
   let g := prog_window_over count pre w s k in
   snd (run_graph g ts) = map (fun _ => None) ts /\
@@ -282,4 +282,125 @@ Proof.
   destruct (window_over_any g (length pre - 1) (length pre) w s Gwf Hpi Hgi Hs ts Hinc Hnone) as (nsi & H1 & H2 & H3 & H4).
   exists nsi. split; [exact H1|]. split; [exact H2|]. split; [exact H3|].
   intros Ha Hb. split; [now apply H4|]. apply union_ok_collect. now apply H4.
+Qed.
+
+(* ---------- the queue source registered first: what it emits, whatever is registered after it ---------- *)
+Section SourceFirst.
+Variables (q : source) (tail : list node).
+Local Notation g := (Src q :: tail).
+
+Lemma src0_tick n T t st :
+  nth_error (gnodes st) 0 = Some (src_state q n T) -> T < t ->
+  nth_error (gnodes (fst (tick g t st))) 0 = Some (src_state q (S n) t).
+Proof.
+  intros H0 Ht. unfold tick. cbn [length seq tick_nodes].
+  rewrite (step_src_go _ g 0 t st q _ eq_refl H0) by (cbn; lia).
+  rewrite src_pop_state.
+  apply tick_nodes_frozen; [apply (nth_put_eq _ _ _ _ H0)|cbn; lia].
+Qed.
+
+Lemma rdd_trace_src0 : forall ts n T st,
+  nth_error (gnodes st) 0 = Some (src_state q n T) -> increasing T ts ->
+  rdd_trace g 0 ts st = map (src_rdd q) (seq n (length ts)).
+Proof.
+  induction ts as [|t ts IH]; intros n T st H0 Hinc; [reflexivity|].
+  destruct Hinc as [Ht Hinc]. cbn [rdd_trace length seq map].
+  pose proof (src0_tick n T t st H0 Ht) as H1.
+  f_equal.
+  - unfold rdd_of. rewrite H1. reflexivity.
+  - apply (IH (S n) t); auto.
+Qed.
+
+(* a windowed view of the source registered ANYWHERE after it, among any other streams (sibling views of the same or of
+   other lengths and slides, consumers, stateful streams ...): after every run in which no tick raised, the view holds
+   the source's most recent w interval RDDs, and at its emitting intervals a consumer sees exactly the in-order
+   concatenation of the source's most recent w batches -- each view independently of its siblings *)
+Lemma window_view_of_source i w s ts :
+  well_formed g -> (0 < i < length g)%nat -> nth_error g i = Some (Window w s 0) -> 0 < s ->
+  increasing 0 ts -> snd (run_graph g ts) = map (fun _ => None) ts ->
+  exists nsi, nth_error (gnodes (final g ts)) i = Some nsi /\
+    nbuf nsi = win_buf q w (length ts) /\ nctr nsi = Z.of_nat (length ts) mod s /\
+    (ts <> [] -> Z.of_nat (length ts) mod s = 0 ->
+     obs_of (nrdd nsi) = Some (concat (lastn (Z.to_nat w) (batches q (length ts))))).
+Proof.
+  intros Hwf Hi Hgi Hs Hinc Hnone.
+  destruct (window_over_any g 0 i w s Hwf Hi Hgi Hs ts Hinc Hnone) as (nsi & H1 & H2 & H3 & H4).
+  assert (Htr : rdd_trace g 0 ts (init_state g) = src_rdds q (length ts)).
+  { apply (rdd_trace_src0 ts 0%nat 0); [reflexivity|exact Hinc]. }
+  rewrite Htr in H2. exists nsi. split; [exact H1|]. split; [exact H2|]. split; [exact H3|].
+  intros Hne Hm. specialize (H4 Hne Hm). rewrite H2 in H4. fold (win_buf q w (length ts)) in H4.
+  rewrite (union_no_none _ (win_buf_no_none q w (length ts))) in H4. inversion H4 as [E]. apply obs_window.
+Qed.
+End SourceFirst.
+
+(* ---------- sibling views: prog_views is well-formed and quiet, for every list of views ---------- *)
+Lemma nth_error_skipn' {A} (l : list A) : forall b k, nth_error (skipn b l) k = nth_error l (b + k).
+Proof. induction l as [|x l IH]; intros [|b] k; cbn; auto. destruct k; reflexivity. Qed.
+
+Lemma views_local g : forall vs base j,
+  nth_error g 0 <> None -> (exists q, nth_error g 0 = Some (Src q)) -> (1 <= base)%nat ->
+  skipn base g = views_nodes base j vs ->
+  forall idx nd, nth_error g (base + idx) = Some nd -> parent_before (base + idx) nd /\ quiet_node g nd.
+Proof.
+  induction vs as [|[[c w] s] vs IH]; intros base j H0 (q & Hq) Hb Hsk idx nd Hnd.
+  - rewrite <- nth_error_skipn', Hsk in Hnd. destruct idx; discriminate.
+  - assert (Hlive : live g 0) by (eapply live_src; exact Hq).
+    assert (Hat : forall k, nth_error g (base + k) = nth_error (views_nodes base j ((c, w, s) :: vs)) k)
+      by (intros k; rewrite <- nth_error_skipn', Hsk; reflexivity).
+    destruct c; cbn [views_nodes] in Hat, Hsk.
+    + destruct idx as [|[|[|[|[|idx]]]]]; rewrite Hat in Hnd; cbn [nth_error] in Hnd.
+      * inversion Hnd; subst. cbn. split; [lia|exact Hlive].
+      * inversion Hnd; subst. cbn. split; [lia|exact I].
+      * inversion Hnd; subst. cbn. split; [lia|exact I].
+      * inversion Hnd; subst. split; [cbn; lia|]. cbn [quiet_node].
+        exists (base + 1)%nat, base. split.
+        -- replace (base + 2)%nat with (base + 2)%nat by lia. rewrite (Hat 2%nat). reflexivity.
+        -- rewrite (Hat 1%nat). reflexivity.
+      * inversion Hnd; subst. cbn. split; [lia|exact I].
+      * replace (base + S (S (S (S (S idx)))))%nat with ((base + 5) + idx)%nat by lia.
+        assert (Hnd' : nth_error g (base + 5 + idx) = Some nd) by (rewrite <- Nat.add_assoc, Hat; exact Hnd).
+        refine (IH (base + 5)%nat (j + 1) H0 (ex_intro _ q Hq) ltac:(lia) _ idx nd Hnd').
+        replace (skipn (base + 5) g) with (skipn 5 (skipn base g)) by (rewrite skipn_skipn'; f_equal; lia).
+        rewrite Hsk. reflexivity.
+    + destruct idx as [|[|idx]]; rewrite Hat in Hnd; cbn [nth_error] in Hnd.
+      * inversion Hnd; subst. cbn. split; [lia|exact Hlive].
+      * inversion Hnd; subst. cbn. split; [lia|exact I].
+      * replace (base + S (S idx))%nat with ((base + 2) + idx)%nat by lia.
+        assert (Hnd' : nth_error g (base + 2 + idx) = Some nd) by (rewrite <- Nat.add_assoc, Hat; exact Hnd).
+        refine (IH (base + 2)%nat (j + 1) H0 (ex_intro _ q Hq) ltac:(lia) _ idx nd Hnd').
+        replace (skipn (base + 2) g) with (skipn 2 (skipn base g)) by (rewrite skipn_skipn'; f_equal; lia).
+        rewrite Hsk. reflexivity.
+Qed.
+
+Lemma prog_views_wf_quiet q views : well_formed (prog_views q views) /\ quiet (prog_views q views).
+Proof.
+  assert (H : forall i nd, nth_error (prog_views q views) i = Some nd ->
+                parent_before i nd /\ quiet_node (prog_views q views) nd).
+  { intros [|i] nd Hnd.
+    - inversion Hnd; subst. cbn. auto.
+    - replace (S i) with (1 + i)%nat in * by lia.
+      apply (views_local (prog_views q views) views 1%nat 0); auto.
+      + discriminate.
+      + exists q. reflexivity. }
+  split; intros i nd Hnd; apply (H i nd Hnd).
+Qed.
+
+(* sibling views of one source: no tick raises, and EVERY window of the program is a view in the sense above *)
+Lemma sibling_views q views i w s ts :
+  views <> [] -> nth_error (prog_views q views) i = Some (Window w s 0) -> 0 < s -> increasing 0 ts ->
+  snd (run_graph (prog_views q views) ts) = map (fun _ => None) ts /\
+  exists nsi, nth_error (gnodes (final (prog_views q views) ts)) i = Some nsi /\
+    nbuf nsi = win_buf q w (length ts) /\ nctr nsi = Z.of_nat (length ts) mod s /\
+    (ts <> [] -> Z.of_nat (length ts) mod s = 0 ->
+     obs_of (nrdd nsi) = Some (concat (lastn (Z.to_nat w) (batches q (length ts))))).
+Proof.
+  intros Hv Hgi Hs Hinc.
+  destruct (prog_views_wf_quiet q views) as [Hwf Hq].
+  assert (Hl : (2 <= length (prog_views q views))%nat).
+  { unfold prog_views. destruct views as [|[[c w0] s0] vs]; [congruence|]. destruct c; cbn; lia. }
+  pose proof (quiet_never_raises _ Hwf Hq Hl ts Hinc) as Hnone.
+  split; [exact Hnone|].
+  assert (Hi : (0 < i < length (prog_views q views))%nat).
+  { split; [destruct i; [discriminate Hgi|lia]|apply nth_error_Some; congruence]. }
+  exact (window_view_of_source q (views_nodes 1 0 views) i w s ts Hwf Hi Hgi Hs Hinc Hnone).
 Qed.
